@@ -276,8 +276,9 @@ def run_property(pid, tier, seed, workdir, t0, a):
     # evidence
     ev = evidence(pid, tier, seed, m, main_res, can_res, time.time() - t0, len(violations), canary_bad, undecided)
     os.makedirs(os.path.join(VERIF, 'evidence'), exist_ok=True)
-    with open(os.path.join(VERIF, 'evidence', pid + '.json'), 'w') as f:
-        json.dump(ev, f, indent=1)
+    if not a.jobs:
+        with open(os.path.join(VERIF, 'evidence', pid + '.json'), 'w') as f:
+            json.dump(ev, f, indent=1)
     for path, rep in violations:
         log('VIOLATION property=%s replay=%s%s' % (pid, path, '' if rep else ' no-failing-input-found'))
     if violations:
